@@ -66,3 +66,16 @@ func ZZ_C14_Quick() {
 	n := nondetChoice("plen", 17)
 	zzC14Check(ext, n)
 }
+
+func ZZ_C14_Thorough() {
+	ext := nondetChoice("ext", 2)
+	k := nondetChoice("plen", 67)
+	n := k
+	switch k {
+	case 65:
+		n = 1400
+	case 66:
+		n = 1500
+	}
+	zzC14Check(ext, n)
+}
